@@ -298,6 +298,16 @@ func runC16(c *Ctx) {
 	} {
 		c.c16Run(ops, &cases)
 	}
+	for _, ops := range c05NameHistories {
+		c.c16Run(ops, &cases)
+	}
+	// groups dissolved by activation, deletion, moves and ungrouping
+	for _, tail := range [][]wop{{{K: "A", I: 3}}, {{K: "A", I: 0}}, {{K: "D", A: "Sheet1"}, {K: "A", I: 2}}, {{K: "U"}}, {{K: "A", I: 1}, {K: "V", A: "Q3", V: false}}, {{K: "M", A: "Q3", B: "Sheet1"}, {K: "A", I: 1}}} {
+		for _, grp := range []string{"Sheet1|S2", "S2|Q3", "Sheet1|S2|Q3", "S2|Q3|W4"} {
+			ops := append([]wop{{K: "N", A: "S2"}, {K: "N", A: "Q3"}, {K: "N", A: "W4"}, {K: "A", I: 1}, {K: "G", A: grp}}, tail...)
+			c.c16Run(ops, &cases)
+		}
+	}
 	n := 300
 	if c.Thorough() {
 		n = 20000
@@ -373,6 +383,19 @@ func (c *Ctx) c16Package(st *c16state, ops []wop) {
 		c.Fail("oracle", "C16_parts", ops, fmt.Sprintf("the written package holds %d worksheet parts %v for the %d sheets %q: a deleted sheet left its part behind, or a sheet has none", len(sheetParts), sheetParts, len(list), list), "")
 		return
 	}
+	// a workbook built from NewFile names the part of a sheet after its sheet id (the list model's ids are unique,
+	// C16_inv): the parts are exactly those of the ids in the sheet map
+	var wantParts []string
+	for id := range st.f.GetSheetMap() {
+		wantParts = append(wantParts, fmt.Sprintf("xl/worksheets/sheet%d.xml", id))
+	}
+	sort.Strings(wantParts)
+	gotParts := append([]string{}, sheetParts...)
+	sort.Strings(gotParts)
+	if strings.Join(gotParts, ",") != strings.Join(wantParts, ",") {
+		c.Fail("oracle", "C16_parts", ops, fmt.Sprintf("worksheet parts %v, the sheet ids of the workbook call for %v", gotParts, wantParts), "")
+		return
+	}
 	for _, p := range sheetParts {
 		if !strings.Contains(wbRels, strings.TrimPrefix(p, "xl/")) {
 			c.Fail("oracle", "C16_parts", ops, fmt.Sprintf("worksheet part %s is not the target of a workbook relationship", p), "")
@@ -406,5 +429,44 @@ func (c *Ctx) c16Package(st *c16state, ops []wop) {
 	st2 := &c16state{f: g, scoped: st.scoped}
 	if a, b := st.observe(), st2.observe(); a != b {
 		c.Fail("oracle", "C16_parts", ops, "sheet collection after save+open differs: "+firstDiff(a, b), "")
+	}
+	// activating a sheet (SetActiveSheet, or the re-activation DeleteSheet performs) or UngroupSheets leaves exactly the
+	// active sheet selected: once a group has been dissolved that way, every other visible sheet can be hidden
+	grouped := false
+	for _, o := range ops {
+		switch o.K {
+		case "G":
+			grouped = true
+		case "A", "U":
+			grouped = false
+		}
+	}
+	if !grouped {
+		active := g.GetActiveSheetIndex()
+		for i, n := range g.GetSheetList() {
+			if v, _ := g.GetSheetVisible(n); i == active || !v {
+				continue
+			}
+			others := 0
+			for _, m := range g.GetSheetList() {
+				if v, _ := g.GetSheetVisible(m); v && m != n {
+					others++
+				}
+			}
+			if others == 0 {
+				continue // the last visible sheet cannot be hidden
+			}
+			h, err := excelize.OpenReader(bytes.NewReader(buf.Bytes()))
+			if err != nil {
+				return
+			}
+			errHide := h.SetSheetVisible(n, false)
+			still, _ := h.GetSheetVisible(n)
+			h.Close()
+			if errHide == nil && still {
+				c.Fail("oracle", "C16_group", ops, fmt.Sprintf("sheet %q is neither active nor part of a group (the last group was dissolved by activating a sheet or by UngroupSheets), yet SetSheetVisible(%q, false) leaves it visible: its tab is still selected", n, n), "")
+				return
+			}
+		}
 	}
 }
